@@ -449,6 +449,33 @@ def _m_conn_inner(which):
     return f
 
 
+def m_net_bit(rng, n):
+    """a whole net moves to another (so far floating) bit of its own cable: every pin keeps its wire-mates, the
+    cable keeps its width and the number of connected wires - only WHICH BIT of the cable the net is changes"""
+    cands = []
+    for i, j, d in _defs(n):
+        for k, cb in enumerate(d.cables):
+            used = [w for w, wire in enumerate(cb.wires) if len(wire.pins) > 0]
+            free = [w for w, wire in enumerate(cb.wires) if len(wire.pins) == 0]
+            for w in used:
+                for w2 in free:
+                    cands.append((i, j, d, k, w, w2))
+    if not cands:
+        raise Inapplicable('no cable with a connected and a floating wire')
+    i, j, d, k, w, w2 = _pick(rng, cands)
+    mops = []
+    for pin in list(d.cables[k].wires[w].pins):
+        if isinstance(pin, sdn.OuterPin):
+            inst = pin.instance
+            addr = _outer_addr(n, i, j, list(d.children).index(inst), inst, pin.inner_pin)
+        else:
+            port = pin.port
+            addr = ['I', i, j, list(d.ports).index(port), list(port.pins).index(pin)]
+        mops.append(['disconnect', ['W', i, j, k, w], 0])
+        mops.append(['connect', ['W', i, j, k, w2], addr, None])
+    return mops
+
+
 def _shape(d):
     return [len(p.pins) for p in d.ports]
 
@@ -623,6 +650,7 @@ CLASSES = {
     'conn_bit': (_m_conn_outer('bit'), 'conn_bit'),
     'conn_port_in': (_m_conn_inner('port'), 'conn_port_in'),
     'conn_bit_in': (_m_conn_inner('bit'), 'conn_bit_in'),
+    'net_bit': (m_net_bit, 'net_bit'),
     'inst_ref': (m_inst_ref, 'inst_ref'),
     'top_ref': (m_top_ref, 'top_ref'),
     'prop_value': (m_prop_value, 'prop_value'),
